@@ -55,6 +55,17 @@ theorem decode_eq_render (ci : SCls → ClsInfo) (f : Fmt) (n : Node) :
     decodeNode ci f n = renderSpec ci f none n := by
   simp only [decodeNode, decodeImpl, event_stream_eq_spec, pieces_specEvents]
 
+/-- The start element may sit anywhere: with any parent identity outside its own block (`par`, numbered below the
+    block) and any parent name, the loop over `self_and_descendants` renders the element alone — the parent is never
+    consulted because the stack is empty when the first element arrives. -/
+theorem decode_any_start (ci : SCls → ClsInfo) (f : Fmt) (n : Node) (par : Option Nat) (pname : Option PStr) (k : Nat)
+    (hk : ∀ q, par = some q → q < k) :
+    decodeImpl ci f (flatten par pname k n) = renderSpec ci f pname n := by
+  simp only [decodeImpl, eventStream_flatten n par pname k hk, pieces_specEvents]
+
+example : decodeImpl liveClsInfo minimalHtml (flatten (some 3) (some (ofS "script")) 7 (.tag (tg "b") [.str .navigable (ofS "<")])) =
+    ofS "<b>&lt;</b>" := by decide
+
 example : decodeNode liveClsInfo minimalHtml demo =
     ofS "<div class=\"a b\" id='x\"'><br/>a&lt;b<!--c--><script>1<2</script><p></p></div>" := by decide
 
